@@ -67,6 +67,14 @@ CHECKS["C09"] = dict(
     design_ref="5/C09",
 )
 
+CHECKS["C10"] = dict(
+    category="proof",
+    text="LaneletNetwork.remove_lanelet / remove_traffic_sign / remove_traffic_light / remove_intersection, the three cleanup_* functions, Scenario.remove_lanelet with remove_hanging_lanelet_members, create_from_lanelet_list and create_from_lanelet_network (shape + excluded types) are executed symbolically from the real source on a network template (4 lanelets with predecessor/successor/adjacency relations, 2 signs, 2 lights, a stop line, an intersection with incoming and crossing) whose ids are ALL symbolic; the removed id is symbolic too (covers every element and a non-existing id). Postconditions: no remaining element refers to a removed id (all relation kinds incl. stop-line references, incoming/successor/crossing sets), every remaining lanelet keeps exactly its old relations minus the removed ids with unchanged geometry, nothing else disappears, signs/lights vanish with a lanelet iff no remaining lanelet references them; cut-out keeps exactly the lanelets whose polygon intersects the shape (abstract predicate) and whose types are not excluded.",
+    note="one network template (relation structure fixed, ids symbolic); sequences of removals follow by induction because each operation re-establishes no-dangling from a no-dangling network; shapely intersects() is an uninterpreted predicate; deepcopy modelled structurally",
+    technique="deductive: AST symbolic execution of real source with symbolic ids on a network template, invariant + frame postconditions discharged by z3",
+    design_ref="5/C10",
+)
+
 NOT_YET = {}
 
 def main():
